@@ -172,9 +172,14 @@ class ObjModel(object):
         import ast as _ast
 
         keys = []
-        for name in ("macroVector", "compute_base_score", "m"):
-            f = self.cls.methods[name]
-            for n in _ast.walk(f.node):
+        # every metric name any method of the class (or a module-level table / helper of its module)
+        # mentions: helpers extracted from macroVector / compute_base_score call m() as well
+        nodes = [self.cls.methods[name].node for name in ("macroVector", "compute_base_score", "m")]
+        nodes += [f.node for name, f in sorted(self.cls.methods.items()) if name not in ("macroVector", "compute_base_score", "m")]
+        nodes += [n for n in self.module.tree.body if not isinstance(n, _ast.ClassDef)]
+        nodes += [n for n in self.cls.node.body if not isinstance(n, _ast.FunctionDef)]
+        for root in nodes:
+            for n in _ast.walk(root):
                 if isinstance(n, _ast.Constant) and isinstance(n.value, str) and n.value in self.accepted and n.value not in keys:
                     keys.append(n.value)
         real = {}
